@@ -80,6 +80,27 @@ theorem next_in_subrange {mn sp p : Pos} (hne : mn ≠ []) (hp : InBox mn sp p) 
     (linR mn sp p + 1 = count mn sp → next p mn sp = endPos mn sp) :=
   next_step hne hp
 
+/-- the iteration never leaves `[min, sup]`: from a position of the box, every component of `next_position` lies
+    between `min_i` and `sup_i` (inclusive) — and the only arithmetic of `next_position` is `+ 1` on components of
+    its argument, which are below `sup_i`.  So for representable `min`, `sup` no increment of the loop overflows
+    (`long`) or wraps (`std::size_t`): the `Int` model is exact for the whole iteration. -/
+theorem next_stays_within {mn sp p : Pos} (hne : mn ≠ []) (hp : InBox mn sp p) :
+    Between mn sp (next p mn sp) ∧ Between mn sp (p.map (· + 1)) := by
+  refine ⟨next_between hne hp, ?_⟩
+  clear hne
+  induction mn generalizing sp p with
+  | nil => cases sp <;> cases p <;> simp_all [InBox, Between]
+  | cons m ms ih =>
+    cases sp with
+    | nil => simp [InBox] at hp
+    | cons s ss =>
+      cases p with
+      | nil => simp [InBox] at hp
+      | cons x xs =>
+        simp only [InBox] at hp
+        simp only [List.map_cons, Between]
+        exact ⟨by omega, by omega, ih hp.2.2⟩
+
 /-- the end sentinel is never a position of the range (the loop cannot stop early). -/
 theorem endPos_not_visited {mn sp : Pos} (hl : mn.length = sp.length) (hne : mn ≠ [])
     (h : minLessSup mn sp = true) : ¬ InBox mn sp (endPos mn sp) := by
